@@ -506,7 +506,11 @@ func writeReplay(g *Gen, dir, id string, o *Obligation) (path string, confirmed 
 		rec["counterexample"] = o.Values
 	}
 	confirmed = false
-	if rp := findReplay(o); rp != nil && o.Status == "sat" {
+	if o.Candidate {
+		rec["counterexample"] = o.Values
+		rec["counterexample_kind"] = "candidate: obtained with the quantified assumptions dropped; believed only if the replay reproduces it"
+	}
+	if rp := findReplay(o); rp != nil && (o.Status == "sat" || o.Candidate) {
 		ok, out := rp.run(g, o, o.Values)
 		rec["replay_template"] = rp.name
 		rec["replay_output"] = out
